@@ -39,6 +39,10 @@ def run(tier, seed):
     if r["error"]:
         raise vlib.ToolError("M1 failed: " + r["error"][:1500])
     v.add_tlc(r)
+    # unbounded: TLAPS proof of the lock discipline for any number of threads / queries (spec/proofs/ConcurrencyProof.tla)
+    n_obl = vlib.run_tlapm("ConcurrencyProof", wd)
+    v.assumptions.append("TLAPS: %d proof obligations of spec/proofs/ConcurrencyProof.tla proved (mutual exclusion, lock consistency, "
+                         "no panic / poisoning, sequential answers, for arbitrary Threads, Queries and M; no deviation switched on)" % n_obl)
     # spec sensitivity: each deviation switch must be found
     for name, flags, inv in [("try_lock", ("FALSE", "TRUE"), "NoPanic"), ("no-recompile", ("TRUE", "FALSE"), "NoPanic")]:
         rd = vlib.run_tlc("MC_Concurrency", MC % ('"t1", "t2"', 2, flags[0], flags[1]), wd, "mc_dev_" + name, workers=8, timeout=600)
